@@ -87,6 +87,8 @@ pub enum Link {
     Null(u8),
     /// Ethernet with the given destination + source MAC addresses
     EthernetMacs([u8; 12]),
+    /// Ethernet with one 802.1Q tag (TPID 0x8100 or 0x88a8) in front of the real EtherType
+    Vlan(u16),
 }
 /// MAC address pairs that another framing would also accept: a raw IPv4 / IPv6 header, a NULL/loopback header of family
 /// 1e (+IPv4, +IPv6), 02, 18. Only the order in which a frame parser tries the framings tells such frames apart.
@@ -116,6 +118,14 @@ pub fn frame(link: Link, ip: &[u8]) -> Vec<u8> {
         Link::EthernetMacs(m) => {
             let mut f = frame(Link::Ethernet, ip);
             f[..12].copy_from_slice(&m);
+            f
+        }
+        Link::Vlan(tpid) => {
+            let e = frame(Link::Ethernet, ip);
+            let mut f = e[..12].to_vec();
+            f.extend(tpid.to_be_bytes());
+            f.extend([0x00, 0x64]); // priority 0, VLAN id 100
+            f.extend_from_slice(&e[12..]);
             f
         }
     }
